@@ -11,13 +11,14 @@ ValsQ(fields) == [p \in Params |->
     [] p = "ext" -> {1, 2, 3} [] p = "blow" -> {2, 128} [] p = "fold" -> {2, 16} [] p = "rem" -> {0, 255}
     [] p = "grind" -> {0, 32} [] p = "q" -> {1, 255}]
 ValsT(fields) == [p \in Params |->
-  CASE p = "mw" -> {1, 2, 254, 255} [] p = "aw" -> {0, 1, 2, 254} [] p = "ar" -> {0, 1, 255} [] p = "le" -> {3, 4, 24}
-    [] p = "meta" -> {<<>>, <<0>>, <<1>>, <<1, 0>>} [] p = "mod" -> fields [] p = "nc" -> {1, 2, 256, 65536}
-    [] p = "ext" -> {1, 2, 3} [] p = "blow" -> {2, 4, 128} [] p = "fold" -> {2, 4, 16} [] p = "rem" -> {0, 1, 255}
-    [] p = "grind" -> {0, 1, 32} [] p = "q" -> {1, 2, 255}]
+  CASE p = "mw" -> {1, 254, 255} [] p = "aw" -> {0, 1, 254} [] p = "ar" -> {0, 1, 255} [] p = "le" -> {3, 24}
+    [] p = "meta" -> {<<>>, <<0>>, <<1>>, <<1, 0>>} [] p = "mod" -> fields [] p = "nc" -> {1, 256, 65536}
+    [] p = "ext" -> {1, 2, 3} [] p = "blow" -> {2, 128} [] p = "fold" -> {2, 16} [] p = "rem" -> {0, 255}
+    [] p = "grind" -> {0, 32} [] p = "q" -> {1, 255}]
 ValsQ8 == ValsQ(Fields8)     ValsQ16 == ValsQ(Fields16)
 ValsT8 == ValsT(Fields8)     ValsT16 == ValsT(Fields16)
 
+\* (the grids contain every value of Base1, so the explored set is exactly the valid part of the product)
 Base1 == [mw |-> 1, aw |-> 0, ar |-> 0, le |-> 3, meta |-> <<>>, mod |-> "f64", nc |-> 1,
           ext |-> 1, blow |-> 2, fold |-> 2, rem |-> 0, grind |-> 0, q |-> 1]
 Base2 == [mw |-> 20, aw |-> 9, ar |-> 12, le |-> 12, meta |-> <<>>, mod |-> "f62", nc |-> 128,
